@@ -213,8 +213,11 @@ OCTET_STRING_decode_ber(const asn_codec_ctx_t *opt_codec_ctx,
 	case 0:
 		/*
 		 * Check tags.
+		 * No restart context is given: the tags are read again
+		 * in phase 1 when the encoding is a constructed one, so
+		 * none of them may be consumed by an incomplete check.
 		 */
-		rval = ber_check_tags(opt_codec_ctx, td, ctx,
+		rval = ber_check_tags(opt_codec_ctx, td, 0,
 			buf_ptr, size, tag_mode, -1,
 			&ctx->left, &tlv_constr);
 		if(rval.code != RC_OK)
